@@ -214,6 +214,7 @@ pub fn eval(c: &Case) -> Verdict {
     obs.class_if(acks >= 2, "two-or-more-acks");
     obs.class_if(w0 <= 64, "small-window");
     obs.class_if(w0 >= 65_535, "large-window");
+    obs.class_if(w0 >= 0x7FFF_FFFF, "window-at-or-above-2^31-1");
     obs.count("acknowledgements", acks);
     obs.count("calls", calls_made);
     obs.nontrivial = acks >= 2 && non_multiple_call;
@@ -221,7 +222,8 @@ pub fn eval(c: &Case) -> Verdict {
 }
 
 fn item(w: u32) -> BoxedStrategy<Item> {
-    let blob_max = (w / 2).clamp(40, 3_000_000);
+    // windows beyond what a case can fill (> 20 MB) get small traffic: no acknowledgement is due
+    let blob_max = if w > 20_000_000 { 4_000 } else { (w / 2).clamp(40, 3_000_000) };
     prop_oneof![
         3 => any::<u32>().prop_map(Item::Ping),
         2 => any::<u8>().prop_map(Item::UnknownCommand),
@@ -269,7 +271,7 @@ pub fn spec() -> PropSpec {
     PropSpec {
         id: "C17",
         level: "exploration",
-        rule: "both session kinds; W: every value 1..=64 (enumerated, several generated streams each), then a pool {100, 127, 128, 129, 255, 4096, 65535, 65536, 1000000, 2^24 (thorough)} and random values; a valid inbound stream from the reference peer encoder (pings, unknown commands, user-control, peer bandwidth, peer acknowledgements, unknown-type blobs sized relative to W) with the Window Acknowledgement Size message after a generated prefix and re-announcements later; call sizes from {0, 1, W-1, W, W+1, 2W, random}. ModelAck predicts per call whether an Acknowledgement appears and its value. Non-trivial = >= 2 acknowledgements and a call whose size is not a multiple of W; distinct = distinct case",
+        rule: "both session kinds; W: every value 1..=64 (enumerated, several generated streams each), then a pool {100, 127, 128, 129, 255, 4096, 65535, 65536, 1000000, 2^24 (thorough)}, random values, and large windows {2^31-1, 2^31, 2^31+1, 3*10^9, 2^32-2, 2^32-1, any u32} for which no acknowledgement may appear; a valid inbound stream from the reference peer encoder (pings, unknown commands, user-control, peer bandwidth, peer acknowledgements, unknown-type blobs sized relative to W) with the Window Acknowledgement Size message after a generated prefix and re-announcements later; call sizes from {0, 1, W-1, W, W+1, 2W, random}. ModelAck predicts per call whether an Acknowledgement appears and its value. Non-trivial = >= 2 acknowledgements and a call whose size is not a multiple of W; distinct = distinct case",
         assumptions: vec![
             "ModelAck (from the statement): the window learned in a call governs the FOLLOWING calls; each call adds its length; reaching W => exactly one Acknowledgement carrying the count, count := 0; a re-announcement replaces W and does not reset the count",
             "W = 0 is outside the statement; W near 2^32 needs ~4 GiB per case and is sampled only up to 2^24",
@@ -287,7 +289,9 @@ pub fn spec() -> PropSpec {
             }, eval),
             PropCheck::new("window-pool", |ctx| {
                 let pool: &'static [u32] = if ctx.tier == Tier::Thorough { &[100, 127, 128, 129, 255, 256, 4096, 65_535, 65_536, 1_000_000, 16_777_216] } else { &[100, 127, 128, 129, 255, 256, 4096, 65_535, 65_536, 1_000_000] };
-                case_for_w(prop_oneof![3 => gen::pick(pool), 1 => 1u32..100_000].boxed())
+                // large windows (no acknowledgement may appear at all in these short streams) exercise
+                // the comparison at magnitudes where signed / wrapping arithmetic would misbehave
+                case_for_w(prop_oneof![6 => gen::pick(pool), 2 => 1u32..100_000, 2 => gen::pick(&[0x7FFF_FFFFu32, 0x8000_0000, 0x8000_0001, 0x8000_1000, 3_000_000_000, 0xFFFF_FFFE, 0xFFFF_FFFF]), 1 => any::<u32>().prop_map(|w| w.max(1))].boxed())
             }, 30_000, 600_000, eval),
         ],
     }
